@@ -154,12 +154,231 @@ MonC03(S) ==
      : k \in 1..n}
 
 (***************************************************************************)
+(* Attempts of a scenario, accepted transactions, resume points.           *)
+(***************************************************************************)
+NAttempts(S) == Len(Scen(S).attempts)
+Plan(S, a) == Scen(S).attempts[a + 1]
+
+\* the handler accepted delivery d (its handlerReturn line says nil)
+AcceptedLine(S, d) ==
+  \E i \in S.from..S.to : Trace[i].ev = "handlerReturn" /\ Trace[i].att = d.att /\ Trace[i].k = d.k /\ Trace[i].res.nil
+\* accepted deliveries of the regular attempts (not the C03 resume streams), in trace order
+Accepted(S) == SelectSeq(SubSeq(Trace, S.from, S.to), LAMBDA x : x.ev = "deliver" /\ x.att < 1000 /\ AcceptedLine(S, x))
+AcceptedBefore(S, a) == SelectSeq(Accepted(S), LAMBDA x : x.att < a)
+
+BoundariesOf(files) ==
+  UNION {{[file |-> files[i].name, off |-> files[i].first]} \cup
+         {[file |-> files[i].name, off |-> Last(files[i].units[j].evs).end] :
+            j \in {x \in 1..Len(files[i].units) : files[i].units[x].u \in TxUnits}}
+         : i \in 1..Len(files)}
+
+NextLabels(txs) == [i \in 1..Len(txs) |-> txs[i].next]
+
+\* the positions from which exactly the transactions after the first n expected ones follow
+EquivB(S, n) ==
+  LET xs == ExpectedFrom(S, StartPos(S)) IN
+  {p \in BoundariesOf(Files(S)) :
+     NextLabels(Committed(UnitsFrom(Files(S), p), p)) = NextLabels(Sub(xs, n + 1, Len(xs)))}
+
+DumpOf(S, a) == SelectSeq(LinesAtt(S, "cmd", a), LAMBDA x : x.kind = "dump")
+PosOfCmd(c) == [file |-> c.file, off |-> c.off]
+StreamRet(S, a) == LinesAtt(S, "streamReturn", a)
+
+Z(mon, S, w, a, k) == F(mon, S, [what |-> w, got |-> a, want |-> 0, k |-> k, c |-> 0, typ |-> 0])
+
+\* is attempt a fault-free (nothing in its plan can end it early)?
+CleanPlan(p) ==
+  p.fault.kind = "none" /\ p.inject.kind = "none" /\ p.connfault = "none" /\ p.handlerErrAt < 0 /\ p.mapperFault = "none"
+  /\ p.cancelAtTx < 0 /\ p.cancelAtPkt < 0 /\ ~p.dead /\ p.end = "eof"
+
+(***************************************************************************)
+(* C04: exactly once across failures and restarts.                         *)
+(***************************************************************************)
+MonC04(S) ==
+  LET acc == Accepted(S)
+      xs  == ExpectedFrom(S, StartPos(S))
+      n   == NAttempts(S)
+      bad == {i \in 1..Min(Len(acc), Len(xs)) : TxFails(acc[i], xs[i], FALSE) # {}}
+  IN (IF Len(acc) > Len(xs) THEN {Z("C04.exactly-once", S, "more accepted transactions than committed", Len(acc), Len(xs))} ELSE {}) \cup
+     {Z("C04.exactly-once", S, "accepted sequence is not the committed sequence (skip/repeat/reorder)", acc[i].att, i) : i \in bad} \cup
+     (IF CleanPlan(Plan(S, n - 1)) /\ Len(acc) < Len(xs)
+      THEN {Z("C04.complete", S, "transactions missing after a clean final attempt", Len(acc), Len(xs))} ELSE {}) \cup
+     UNION {
+       LET d == DumpOf(S, a) IN
+       IF Len(d) = 0 \/ (\E i \in S.from..S.to : Trace[i].ev = "setpos" /\ Trace[i].att <= a) THEN {}
+       ELSE IF PosOfCmd(d[1]) \in EquivB(S, Len(AcceptedBefore(S, a))) THEN {}
+       ELSE {Z("C04.resume-position", S, "dump request is not at the boundary after the last accepted transaction", a, Len(AcceptedBefore(S, a)))}
+     : a \in 1..(n - 1)}
+
+(***************************************************************************)
+(* C07: the handshake asks for exactly the configured stream.              *)
+(***************************************************************************)
+\* does text t (lower-cased) contain the word w?
+Contains(t, w) == \E i \in 1..(Len(t) - Len(w) + 1) : Sub(t, i, i + Len(w) - 1) = w
+WChecksum == <<64, 109, 97, 115, 116, 101, 114, 95, 98, 105, 110, 108, 111, 103, 95, 99, 104, 101, 99, 107, 115, 117, 109>>  \* @master_binlog_checksum
+WSet == <<115, 101, 116>>
+
+\* explicit re-positioning before attempt a (the latest one), if any
+SetPosFor(S, a) == SelectSeq(SubSeq(Trace, S.from, S.to), LAMBDA x : x.ev = "setpos" /\ x.att <= a)
+
+MonC07(S) ==
+  UNION {
+    LET cmds == SelectSeq(LinesAtt(S, "cmd", a), LAMBDA x : x.kind # "quit")
+        sp   == SetPosFor(S, a)
+    IN IF Len(cmds) = 0 THEN {}      \* no connection was established in this attempt
+       ELSE
+        (IF Len(cmds) = 2 /\ cmds[1].kind = "query" /\ cmds[2].kind = "dump" THEN {}
+         ELSE {Z("C07.sequence", S, "commands are not exactly <<SET query, one dump request>>", a, Len(cmds))}) \cup
+        (IF \E i \in 1..Len(cmds) : cmds[i].kind = "query" /\ Contains(LowerSeq(cmds[i].sql), WChecksum)
+                                     /\ Take(LowerSeq(cmds[i].sql), 3) = WSet
+                                     /\ \A j \in 1..Len(cmds) : cmds[j].kind = "dump" => i < j
+         THEN {} ELSE {Z("C07.checksum-first", S, "no SET @master_binlog_checksum before the dump request", a, 0)}) \cup
+        UNION {
+          IF cmds[j].kind # "dump" THEN {}
+          ELSE (IF cmds[j].flags % 2 = 0 THEN {} ELSE {Z("C07.blocking", S, "BINLOG_DUMP_NON_BLOCK is set", a, cmds[j].flags)}) \cup
+               (IF cmds[j].serverid = Scen(S).serverid THEN {} ELSE {Z("C07.server-id", S, "server id differs from the configured one", a, 0)}) \cup
+               (LET p == PosOfCmd(cmds[j]) IN
+                IF Len(sp) > 0 /\ sp[Len(sp)].att = a THEN (IF p = sp[Len(sp)].pos THEN {} ELSE {Z("C07.position", S, "not the position given to SetBinlogPosition", a, 0)})
+                ELSE IF a = 0 THEN (IF p = StartPos(S) THEN {} ELSE {Z("C07.position", S, "first attempt does not ask for the position given to SetBinlogPosition", a, 0)})
+                ELSE IF Files(S) = <<>> THEN
+                       \* nothing was ever served: the stored position is still the last explicit one
+                       (IF p = (IF Len(sp) > 0 THEN sp[Len(sp)].pos ELSE StartPos(S)) THEN {} ELSE {Z("C07.position", S, "later attempt does not ask for the stored position", a, 0)})
+                ELSE IF Len(sp) > 0 THEN {}
+                ELSE (IF p \in EquivB(S, Len(AcceptedBefore(S, a))) THEN {} ELSE {Z("C07.position", S, "later attempt does not ask for the stored resume position", a, 0)}))
+          : j \in 1..Len(cmds)}
+    : a \in 0..(NAttempts(S) - 1)}
+
+(***************************************************************************)
+(* C17 (stream half): a malformed packet ends the stream with an error,    *)
+(* no partial transaction, resume position at the last accepted boundary.  *)
+(***************************************************************************)
+MonC17(S) ==
+  UNION {
+    LET p   == Plan(S, a)
+        at  == SelectSeq(LinesAtt(S, "attempt", a), LAMBDA x : TRUE)
+        ret == StreamRet(S, a)
+        ds  == Delivered(S, a)
+        xs  == ExpectedFrom(S, StartPos(S))
+        nb  == Len(AcceptedBefore(S, a))
+    IN IF p.inject.kind # "invalid" THEN {}
+       ELSE (IF Len(ret) = 1 /\ ret[1].returned /\ ~ret[1].res.nil THEN {}
+             ELSE {Z("C17.error", S, "Stream did not return a non-nil error for a malformed packet", a, 0)}) \cup
+            \* exactly the transactions whose commit packet came before the malformed one were delivered
+            (IF a = 0 /\ Len(at) = 1 /\ Len(ds) # at[1].nbefore
+             THEN {Z("C17.no-partial", S, "deliveries differ from the transactions completed before the malformed packet", Len(ds), at[1].nbefore)} ELSE {}) \cup
+            {Z("C17.no-partial", S, "a delivered transaction is not a committed one", a, i) :
+               i \in {j \in 1..Len(ds) : nb + j > Len(xs) \/ (nb + j <= Len(xs) /\ TxFails(ds[j], xs[nb + j], FALSE) # {})}} \cup
+            (LET d == DumpOf(S, a + 1) IN
+             IF a + 1 >= NAttempts(S) \/ Len(d) = 0 THEN {}
+             ELSE IF PosOfCmd(d[1]) \in EquivB(S, Len(AcceptedBefore(S, a + 1))) THEN {}
+             ELSE {Z("C17.resume-position", S, "resume position moved by a malformed packet", a, 0)})
+    : a \in 0..(NAttempts(S) - 1)} \cup
+  {Z("C17.panic", S, "the process panicked", 0, 0) : x \in {i \in S.from..S.to : Trace[i].ev = "panic"}}
+
+(***************************************************************************)
+(* C05: Stream terminates, nothing is left behind, Error() never blocks,   *)
+(* the handler is called only from within Stream, one call at a time.      *)
+(***************************************************************************)
+IndexOfLine(S, P(_)) == CHOOSE i \in S.from..S.to : P(Trace[i])
+
+MonC05(S) ==
+  UNION {
+    LET ret  == StreamRet(S, a)
+        ers  == LinesAtt(S, "errorReturn", a)
+        sk   == LinesAtt(S, "sock", a)
+        gr   == LinesAtt(S, "goroutines", a)
+        ds   == Delivered(S, a)
+        cmds == LinesAtt(S, "cmd", a)
+        retIdx == IF Len(ret) = 1 THEN IndexOfLine(S, LAMBDA x : x.ev = "streamReturn" /\ x.att = a) ELSE 0
+    IN (IF Len(ret) = 1 /\ ret[1].returned THEN {} ELSE {Z("C05.stream-returns", S, "Stream did not return within bounded time", a, 0)}) \cup
+       {Z("C05.error-returns", S, "Error() did not return (blocked)", a, ers[i].call) : i \in {j \in 1..Len(ers) : ~ers[j].returned}} \cup
+       (IF Len(ers) = 0 THEN {Z("C05.error-returns", S, "Error() was never observed to return", a, 0)} ELSE {}) \cup
+       (IF Len(sk) = 1 /\ Len(cmds) > 0 /\ ~sk[1].masterEnded /\ ~sk[1].peerClosed
+        THEN {Z("C05.connection-closed", S, "connection to the master still open after Stream returned", a, 0)} ELSE {}) \cup
+       (IF Len(gr) = 1 /\ gr[1].n > 0 THEN {Z("C05.no-goroutine-left", S, "library goroutine remains after Stream returned", a, gr[1].n)} ELSE {}) \cup
+       {Z("C05.handler-discipline", S, "handler called on another goroutine or re-entered", a, ds[i].k) :
+          i \in {j \in 1..Len(ds) : ds[j].g # ds[j].callerg \/ ds[j].nested # 1}} \cup
+       {Z("C05.handler-discipline", S, "handler called after Stream returned", a, Trace[i].k) :
+          i \in {j \in S.from..S.to : Trace[j].ev = "deliver" /\ Trace[j].att = a /\ retIdx > 0 /\ j > retIdx}}
+    : a \in 0..(NAttempts(S) - 1)}
+
+(***************************************************************************)
+(* C06: the reason a stream ended is reported.                             *)
+(***************************************************************************)
+MonC06(S) ==
+  UNION {
+    LET p    == Plan(S, a)
+        ret  == StreamRet(S, a)
+        ers  == LinesAtt(S, "errorReturn", a)
+        sk   == LinesAtt(S, "sock", a)
+        hr   == LinesAtt(S, "handlerReturn", a)
+        mc   == LinesAtt(S, "mapperCall", a)
+        hfail == \E i \in 1..Len(hr) : ~hr[i].res.nil
+        mfail == \E i \in 1..Len(mc) : mc[i].res # "ok"
+        dfail == p.inject.kind # "none" /\ Len(sk) = 1 /\ sk[1].sent > p.inject.at /\ p.cancelAtTx < 0 /\ p.cancelAtPkt < 0 /\ p.end = "eof"
+        streamNil == Len(ret) = 1 /\ ret[1].returned /\ ret[1].res.nil
+        e1   == IF Len(ers) > 0 /\ ers[1].returned THEN ers[1] ELSE [res |-> [nil |-> FALSE, text |-> <<>>], returned |-> FALSE]
+        cancelled == Len(ret) = 1 /\ ret[1].cancelledBefore
+        eofEnd == (p.fault.kind = "eof") \/ (p.fault.kind = "none" /\ p.end = "eof" /\ p.connfault = "none" /\ ~p.dead /\ p.inject.kind = "none")
+        faultHit == p.fault.kind # "none" /\ Len(sk) = 1 /\ sk[1].sent >= p.fault.at /\ ~cancelled /\ ~hfail /\ ~mfail
+    IN IF Len(ret) # 1 \/ ~ret[1].returned THEN {}   \* termination is C05's business
+       ELSE
+       (IF hfail /\ streamNil THEN {Z("C06.handler-failure", S, "Stream returned nil although the handler failed", a, 0)} ELSE {}) \cup
+       (IF mfail /\ streamNil THEN {Z("C06.lookup-failure", S, "Stream returned nil although the table lookup failed or mismatched", a, 0)} ELSE {}) \cup
+       (IF dfail /\ ~hfail /\ ~mfail /\ streamNil THEN {Z("C06.decode-failure", S, "Stream returned nil for an unsupported / undecodable event", a, 0)} ELSE {}) \cup
+       (IF streamNil /\ e1.returned /\ e1.res.nil /\ ~cancelled /\ ~eofEnd
+        THEN (IF p.cancelAfterReturn
+              THEN {Z("C06.swallowed-after-late-cancel", S, "context cancelled after Stream returned: Error() reports a lost connection / master error as a clean end", a, 0)}
+              ELSE {Z("C06.swallowed", S, "Stream and Error() both nil although the stream ended neither by cancellation nor by EOF", a, 0)})
+        ELSE {}) \cup
+       (IF streamNil /\ faultHit /\ p.fault.kind = "err" /\ e1.returned /\ ~e1.res.nil /\ ~Contains(e1.res.text, p.fault.msg)
+        THEN {Z("C06.master-message", S, "Error() does not carry the master's error message", a, 0)} ELSE {})
+    : a \in 0..(NAttempts(S) - 1)}
+
+(***************************************************************************)
+(* C08: delivered transactions are stable.                                 *)
+(***************************************************************************)
+\* the projection of a delivery with every value byte replaced by pattern pat (the handler's own scribbles)
+ScribbledRow(row, pat) == [c \in 1..Len(row) |-> [row[c] EXCEPT !.data = [i \in 1..Len(row[c].data) |-> pat],
+                                                              !.fbits = row[c].fbits]]
+ScribbledEvs(evs, pat) ==
+  [j \in 1..Len(evs) |-> [evs[j] EXCEPT !.vals = [r \in 1..Len(evs[j].vals) |-> ScribbledRow(evs[j].vals[r], pat)],
+                                         !.ids  = [r \in 1..Len(evs[j].ids)  |-> ScribbledRow(evs[j].ids[r], pat)]]]
+\* compare ignoring the float parse-back annotation (it is recomputed from the current bytes)
+NoFb(evs) ==
+  [j \in 1..Len(evs) |-> [evs[j] EXCEPT !.vals = [r \in 1..Len(evs[j].vals) |-> [c \in 1..Len(evs[j].vals[r]) |-> [evs[j].vals[r][c] EXCEPT !.fbits = <<>>]]],
+                                         !.ids  = [r \in 1..Len(evs[j].ids)  |-> [c \in 1..Len(evs[j].ids[r])  |-> [evs[j].ids[r][c]  EXCEPT !.fbits = <<>>]]]]]
+
+MonC08(S) ==
+  LET rr == Lines(S, "reread")
+      dl == SelectSeq(SubSeq(Trace, S.from, S.to), LAMBDA x : x.ev = "deliver" /\ x.att < 1000)
+  IN UNION {
+       LET r == rr[i]
+           ds == SelectSeq(dl, LAMBDA x : x.gk = r.gk)
+       IN IF Len(ds) # 1 THEN {}
+          ELSE LET d == ds[1]
+                   want == IF d.pat < 0 THEN NoFb(d.evs) ELSE NoFb(ScribbledEvs(d.evs, d.pat))
+               IN (IF r.now = d.now /\ r.next = d.next /\ r.ts = d.ts THEN {} ELSE {Z("C08.stable", S, "positions or timestamp of a delivered transaction changed", d.att, d.k)}) \cup
+                  (IF NoFb(r.evs) = want THEN {}
+                   ELSE {Z("C08.stable", S, IF d.pat < 0 THEN "contents of a delivered transaction changed after delivery"
+                                                          ELSE "overwriting one delivered value changed another delivered value", d.att, d.k)})
+     : i \in 1..Len(rr)} \cup
+     \* later deliveries still equal the oracle although earlier ones were overwritten by the handler
+     SeqFails("C08.later-deliveries", S, Delivered(S, 0), ExpectedFrom(S, StartPos(S)), TRUE)
+
+(***************************************************************************)
 (* Dispatch and the replay state machine.                                  *)
 (***************************************************************************)
 Mon(p, S) ==
   CASE p = "C01" -> MonC01(S)
     [] p = "C02" -> MonC02(S)
     [] p = "C03" -> MonC03(S)
+    [] p = "C04" -> MonC04(S)
+    [] p = "C07" -> MonC07(S)
+    [] p = "C17" -> MonC17(S)
+    [] p = "C05" -> MonC05(S)
+    [] p = "C06" -> MonC06(S)
+    [] p = "C08" -> MonC08(S)
 
 Failures(S) == UNION {Mon(p, S) : p \in Props}
 
@@ -175,6 +394,10 @@ TNext ==
           THEN LET bad == Failures([from |-> s0, to |-> l]) IN
                  /\ nviol' = nviol + Cardinality(bad)
                  /\ \A b \in bad : PrintT(<<"MONFAIL", ToJson(b)>>)
+          ELSE IF e.ev = "race" /\ "C05" \in Props
+          THEN /\ nviol' = nviol + 1
+               /\ PrintT(<<"MONFAIL", ToJson([mon |-> "C05.race", id |-> 0, fam |-> "race",
+                                              info |-> [what |-> "data race", pair |-> e.pair, a |-> e.a, b |-> e.b]])>>)
           ELSE UNCHANGED nviol
 
 TSpec == TInit /\ [][TNext]_tvars
